@@ -86,11 +86,12 @@ def type_of(name):
     import numpy as np
     import torch
 
-    return {
+    d = {
         "ndarray": np.ndarray, "Tensor": torch.Tensor, "int": int, "str": str, "float": float, "list": list, "dict": dict,
         "bool": bool, "Inner": S.Inner, "Generator": np.random.Generator, "Parameter": torch.nn.Parameter, "Module": torch.nn.Module,
         "Mid": S.Mid, "NodeA": S.NodeA, "HybridInner": S.HybridInner,
-    }[name]
+    }
+    return d[name] if name in d else _instance_type(name, concrete=False)
 
 
 def graph_desc():
@@ -556,7 +557,9 @@ ROOT_NAME_SETS = {
     "attrs": [["a"], ["arr"], ["child"], ["a", "t"], ["zzz"]],
 }
 ROOT_TYPE_SETS = {
-    "hybrid": [["Parameter"], ["Tensor"], ["Module"], ["Mid"], ["ndarray"], ["HybridInner"]],
+    "hybrid": [["Parameter"], ["Tensor"], ["Module"], ["Mid"], ["ndarray"], ["HybridInner"]] + [[t] for t in (
+        # instances through a virtual base / hook (see INSTANCE_WAYS below); none of them matches torch's own bookkeeping attributes (dicts, sets, the bool `training`)
+        "RegisteredTensorKind", "HasShapeHook", "abc.Callable", "NamedInstanceCheck", "RegisteredKind")],
     "attrs": [["ndarray"], ["Tensor"], ["Mid"]],
 }
 
@@ -631,7 +634,7 @@ def run_root_kind(item, seed, scratch):
 
     kind, store = item["root"], item["store"]
     names, types = item.get("names", []), item.get("types", [])
-    tt = tuple(type_of(t) for t in types)
+    tt = tuple(_instance_type(t) for t in types)
     whens = ["save"] if types else ["save", "load", "both"]
     fails, points = [], []
     state_restore()
@@ -1165,6 +1168,217 @@ def eval_save_history(item, seed=0, scratch="/tmp"):
         t.fail(cls, dict(item, family="save_history", seed=seed), msg)
     if item["configs"][0] != "none" and item["configs"][-1] == "none":
         t.sample({"family": "save_history", "part": item["part"], "configs": item["configs"], "objects": item["objects"], "stores": item["stores"], "raw": item.get("raw"), "observed": "every target equals the object pruned by its own call's lists; module-level state unchanged" if not fails else f"{len(fails)} failure(s)"}, cap=1)
+    return t
+
+
+# ----------------------------------------------------------------------------- every way of being an instance of a listed type
+# "removes every attribute that is an instance of a listed type": in Python that relation is `isinstance`, which holds
+# through the concrete class, through a base class, through an abstract base class with virtual subclasses (register(),
+# __subclasshook__), through a runtime-checkable Protocol, through a metaclass __instancecheck__, and trivially for
+# `object`. The type-list alphabet below has one member (or more) of every such way; the graph has an attribute of every
+# value kind of the leaf alphabet at the root and at nested levels. Oracle: prune() above, i.e. an attribute is absent
+# after load iff isinstance(original value, listed types); every other attribute equals the in-memory one.
+INSTANCE_WAYS = {
+    "concrete class": ["int", "float", "complex", "str", "bytes", "dict", "tuple", "ndarray", "Tensor", "Mid", "np.int64"],
+    "base class": ["Parameter", "Module", "np.generic", "np.integer", "np.floating", "np.number", "PurePath", "AutoSerialize"],
+    "abstract base class with virtual subclasses": [
+        "numbers.Number", "numbers.Complex", "numbers.Real", "numbers.Integral", "abc.Mapping", "abc.MutableMapping", "abc.Sequence",
+        "abc.MutableSequence", "abc.Set", "abc.Sized", "abc.Iterable", "abc.Container", "abc.Collection", "abc.Reversible", "abc.Hashable",
+        "abc.Callable", "os.PathLike",
+    ],
+    "user ABC with register()": ["RegisteredKind", "RegisteredTensorKind"],
+    "__subclasshook__": ["HasShapeHook"],
+    "runtime-checkable Protocol": ["HasItemsProtocol", "typing.SupportsFloat", "typing.SupportsIndex"],
+    "metaclass __instancecheck__": ["NamedInstanceCheck"],
+    "object": ["object"],
+}
+INSTANCE_TYPES = [t for ts in INSTANCE_WAYS.values() for t in ts]
+# pairs: all 2-subsets of one representative per way (+ the seed-independent classic int/bool base case)
+INSTANCE_PAIR_POOL = ["str", "Parameter", "numbers.Integral", "numbers.Real", "abc.Mapping", "abc.Sequence", "RegisteredKind", "HasShapeHook", "HasItemsProtocol", "NamedInstanceCheck"]
+# hybrid root (registered parameters / buffers / sub-modules are filtered by a second isinstance site): only types
+# that match no internal bookkeeping attribute of torch.nn.Module (dicts, sets, bools, None)
+INSTANCE_TYPES_HYBRID_ROOT = [ts[0] for ts in ROOT_TYPE_SETS["hybrid"][6:]]
+# spellings outside `str | type | Sequence[str | type]`: a tuple nested in the list, a PEP 604 union, a typing alias
+INSTANCE_NESTED_SPELLINGS = ["nested_tuple_in_list", "nested_tuple_in_tuple", "doubly_nested_tuple", "union_type", "typing_alias"]
+
+
+def _instance_type(name, concrete=True):
+    import collections.abc
+    import numbers
+    import os
+    import pathlib
+    import typing
+
+    import numpy as np
+
+    if name.startswith("abc."):
+        return getattr(collections.abc, name[4:])
+    if name.startswith("numbers."):
+        return getattr(numbers, name[8:])
+    if name.startswith("typing."):
+        return getattr(typing, name[7:])
+    if name.startswith("np."):
+        return getattr(np, name[3:])
+    if name in ("RegisteredKind", "RegisteredTensorKind", "HasShapeHook", "HasItemsProtocol", "NamedInstanceCheck", "AutoSerialize"):
+        return getattr(S, name)
+    if name == "os.PathLike":
+        return os.PathLike
+    if name == "PurePath":
+        return pathlib.PurePath
+    if name in ("complex", "bytes", "tuple", "set", "object"):
+        return {"complex": complex, "bytes": bytes, "tuple": tuple, "set": set, "object": object}[name]
+    if not concrete:
+        raise KeyError(name)
+    return type_of(name)
+
+
+def instance_graph_desc():
+    L, C, D, O = S.L, S.C, S.D, S.O
+    inner = O(
+        "PlainLeafNode", n=L("i-1"), on=L("false"), x=L("np_f64"), z=L("complex"), tag=L("s"), table=D(("a", L("i0")), ("n", L("s"))), data=L("arr:f64:(3,)"),
+        tup=C("tuple", L("i0"), L("s")), w=L("t_param"), nb=L("np_bool"), nothing=L("none"), p=L("path_abs"), od=L("cs:OrderedDict"),
+    )
+    mid = O(
+        "Mid", k=L("np_i8"), on=L("true"), x=L("f0.5"), name=L("s_empty"), table=D(("k", L("f1.5"))), seq=C("list", L("i-1"), L("s")),
+        arr=L("arr:u8:(3,)"), t=L("t_f32_grad"), fz=L("frozenset"), inner=inner, lin=L("linear"), nt=L("cs:namedtuple_numeric"),
+    )
+    return O(
+        "Top", n=L("i2^40"), on=L("true"), x=L("f1.5"), z=L("complex"), name=L("s_unicode"), by=L("bytes"), nothing=L("none"), p=L("path_rel"),
+        npi=L("np_i64"), npf=L("np_f32"), npb=L("np_bool"), npc=L("np_c128"), arr=L("arr:i16:(2, 3)"), arr0=L("arr:f64:()"), t=L("t_f64"), t0=L("t_0d"),
+        w=L("t_param"), lin=L("linear"), seq=C("list", L("i0"), L("s"), L("arr:i16:(3,)")), tup=C("tuple", L("path_rel"), L("f1.5")),
+        table=D(("n", L("i0")), ("arr", L("arr:u8:(3,)"))), st=C("set", L("s"), L("s_empty")), rg=L("range"), rng=L("rng"), ul=L("cs:list_subclass"),
+        mid=mid,
+    )
+
+
+INSTANCE_GRAPH = instance_graph_desc()
+
+
+def _nested_spelling(form, tt):
+    import typing
+
+    if form == "nested_tuple_in_list":
+        return [tuple(tt)]
+    if form == "nested_tuple_in_tuple":
+        return (tuple(tt),)
+    if form == "doubly_nested_tuple":
+        return [(tt[0], tuple(tt[1:]))]
+    if form == "union_type":
+        u = tt[0]
+        for t in tt[1:]:
+            u = u | t
+        return [u]
+    if form == "typing_alias":
+        return [typing.Mapping, typing.Sequence]
+    raise ValueError(form)
+
+
+def run_instance(case, seed, scratch):
+    """{"types": [names], "store": s, "graph": "plain"} -> skip=[types] at save time on INSTANCE_GRAPH, plain load;
+    {"form": nested spelling, ...}: a spelling outside the signature, see below. Returns (fails, outcome, nontrivial, info)."""
+    import os
+
+    types, store = case["types"], case["store"]
+    tt = tuple(_instance_type(t) for t in types)
+    form = case.get("form")
+    fails = []
+    state_restore()
+    exp = S.build(INSTANCE_GRAPH, seed)
+    removed = prune(exp, set(), tt)
+    label = f"instance-relation graph store={store} save(skip=" + (f"{form} of " if form else "") + f"[{', '.join(types)}])"
+    base = {"relation": "skip_types_isinstance", "when": "save"}
+    with S.Workdir(scratch, "C14") as wd:
+        p = S.target(wd, store, "i")
+        if form is None:
+            st, y = S.save_load(S.build(INSTANCE_GRAPH, seed), wd, store, name="i", save_kw={"skip": list(tt)})
+            if st != "ok":
+                fails.append((dict(base, symptom=st, exc=type(y).__name__), f"{label}: {st.replace('_', ' ')} {type(y).__name__}: {str(y)[:200]} (expected: the graph without the instances of these types)"))
+                return fails, [st], removed > 0, {}
+            d = S.diff(exp, y, slack=True, root="top")
+            if d:
+                r = d[0]
+                c = _cls(r, "skip_types_isinstance", "save")
+                how = ""
+                if r.get("extra") and not r.get("missing"):  # which way of being an instance was not honoured
+                    src = S.build(INSTANCE_GRAPH, seed)
+                    how = "; isinstance(original value, listed) is True for " + ", ".join(f"{n} ({type(v).__name__})" for n, v in _walk_attrs(src, r["path"], r["extra"]))
+                fails.append((c, f"{label}: loaded object differs from the in-memory graph without the instances of the listed types: {S.fmt(d)}{how}"))
+            return fails, S.summary(y), removed > 0, {}
+        # ---- spellings outside the signature: either refused (an exception, nothing written) or given isinstance
+        # semantics (what isinstance itself does with nested tuples / unions), or not a type list at all (ignored as a
+        # whole, like any other non-str non-type element). Anything in between is a failure.
+        arg = _nested_spelling(form, tt)
+        if form == "typing_alias":
+            import collections.abc
+
+            tt = (collections.abc.Mapping, collections.abc.Sequence)
+            exp = S.build(INSTANCE_GRAPH, seed)
+            removed = prune(exp, set(), tt)
+        st = _save(S.build(INSTANCE_GRAPH, seed), p, store, arg)
+        if st[0] != "ok":
+            if os.path.exists(p):
+                fails.append((dict(base, symptom="refused_spelling_wrote_something", spelling=form), f"{label}: save raised {type(st[1]).__name__} but left something at the target"))
+            return fails, ["refused"], False, {"nested_spelling": "refused"}
+        st, y = _load(p, None)
+        if st != "ok":
+            fails.append((dict(base, symptom=st, exc=type(y).__name__, spelling=form), f"{label}: the save succeeded, the plain load raised {type(y).__name__}: {str(y)[:200]}"))
+            return fails, [st], False, {}
+        d_sem = S.diff(exp, y, slack=True, root="top")
+        if not d_sem:
+            return fails, S.summary(y), removed > 0, {"nested_spelling": "isinstance_semantics"}
+        d_ign = S.diff(S.build(INSTANCE_GRAPH, seed), y, slack=True, root="top")
+        if not d_ign:
+            return fails, S.summary(y), False, {"nested_spelling": "ignored_as_a_whole"}
+        c = _cls(d_sem[0], "skip_types_isinstance", "save")
+        c["spelling"] = form
+        fails.append((c, f"{label}: neither refused, nor isinstance semantics ({S.fmt(d_sem, 2)}), nor ignored as a whole ({S.fmt(d_ign, 2)})"))
+    return fails, S.summary(y), removed > 0, {}
+
+
+def _walk_attrs(obj, path, names):
+    """(name, value) of the attributes `names` of the object at `path` ('top.mid.inner')."""
+    for step in path.split(".")[1:]:
+        obj = getattr(obj, step, obj)
+    return [(n, getattr(obj, n)) for n in names if hasattr(obj, n)]
+
+
+def instance_matches(seed):
+    """{type name: number of attributes of the graph (all levels, before pruning) that are instances}: the measured
+    reach of every alphabet member, for the coverage record and the vacuity guard."""
+    out = {}
+    for t in INSTANCE_TYPES:
+        x = S.build(INSTANCE_GRAPH, seed)
+        out[t] = prune(x, set(), (_instance_type(t),))
+    return out
+
+
+def enumerate_instance(quick):
+    first = {ts[0] for ts in INSTANCE_WAYS.values()} | {"numbers.Integral", "abc.Mapping"}
+    items = []
+    for i, t in enumerate(INSTANCE_TYPES):  # quick: both stores for one member of every way, alternating stores for the others
+        for st in (STORES if (not quick or t in first) else [STORES[i % 2]]):
+            items.append({"types": [t], "store": st})
+    for i, pr in enumerate(itertools.combinations(INSTANCE_PAIR_POOL, 2)):
+        for st in ([STORES[i % 2]] if quick else STORES):
+            items.append({"types": list(pr), "store": st})
+    for i, form in enumerate(INSTANCE_NESTED_SPELLINGS):
+        for st in ([STORES[i % 2]] if quick else STORES):
+            items.append({"types": ["numbers.Integral", "abc.Mapping", "str"], "store": st, "form": form})
+    return items
+
+
+def eval_instance(item, seed=0, scratch="/tmp"):
+    t = Tally()
+    case = dict(item, family="instance", seed=seed)
+    f, outcome, nontrivial, info = run_instance(case, seed, scratch)
+    t.case(key=["instance", item["types"], item["store"], item.get("form")], nontrivial=nontrivial, outcome=outcome)
+    t.extra["instance_points"] += 1
+    if info.get("nested_spelling"):
+        t.extra["instance_nested_spelling_" + info["nested_spelling"]] += 1
+    for cls, msg in f:
+        t.fail(cls, case, msg)
+    if item["types"] == ["numbers.Integral", "abc.Mapping"]:
+        t.sample({"family": "instance", "types": item["types"], "store": item["store"], "observed": "equal to the in-memory graph without the instances (isinstance) of these types" if not f else f"{len(f)} failure(s)"}, cap=1)
     return t
 
 
